@@ -1,0 +1,127 @@
+//go:build verif
+
+// Contracts for the layout family of package UTO311_L0x (property C18), read by the /verif VC
+// generator (govc). This file contains comments only; it is compiled only with -tags verif.
+//
+// For each layout: encoding writes exactly each field's bytes at its declared offset (little-endian
+// integers, 0/1 booleans, 4-byte IPv4, ...), the function code in byte 1, 0x17 in byte 0 and zero in
+// every other byte; decoding the encoding yields the encoded values; decoded slices share no memory
+// with the buffer; nothing panics (run-time-check obligations), even for fields ending on byte 63.
+//
+// verif:package github.com/uhppoted/uhppote-core/encoding/UTO311-L0x
+package UTO311_L0x
+
+//@ func lemmaLayoutInts
+//@   params v
+//@   returns (w, b, ok)
+//@   define B = row(b)
+//@   ensures total: ok
+//@   ensures bytes: ok ==> len(b) == 64 && B[0] == 0x17 && B[1] == 0x41 && B[2] == v.A && wire.u16(B, 3) == v.B && wire.u32(B, 5) == v.C &&
+//@                    wire.bool(B, 9, v.D) && wire.u32(B, 58) == v.E && wire.u16(B, 62) == v.F && wire.zero(B, 10, 58)
+//@   ensures same:  ok ==> w.A == v.A && w.B == v.B && w.C == v.C && (w.D <==> v.D) && w.E == v.E && w.F == v.F
+
+//@ func lemmaLayoutLast
+//@   params v
+//@   returns (w, b, ok)
+//@   define B = row(b)
+//@   ensures total: ok
+//@   ensures bytes: ok ==> len(b) == 64 && B[0] == 0x17 && B[1] == 66 && wire.bool(B, 62, v.A) && B[63] == v.B && wire.zero(B, 2, 62)
+//@   ensures same:  ok ==> (w.A <==> v.A) && w.B == v.B
+
+//@ func lemmaLayoutAddrs
+//@   params v
+//@   returns (w, b, ok)
+//@   define B = row(b)
+//@   define DOM = len(v.IP) == 4 && v.AddrPort.ip.kind == 1 && len(v.MAC) == 6
+//@   ensures total: DOM ==> ok
+//@   ensures bytes: ok && DOM ==> len(b) == 64 && B[0] == 0x17 && B[1] == 0x43 && B[8] == v.IP[0] && B[9] == v.IP[1] && B[10] == v.IP[2] && B[11] == v.IP[3] &&
+//@                    wire.be32(B, 12) == v.AddrPort.ip.bits && wire.u16(B, 16) == v.AddrPort.port &&
+//@                    B[58] == v.MAC[0] && B[59] == v.MAC[1] && B[60] == v.MAC[2] && B[61] == v.MAC[3] && B[62] == v.MAC[4] && B[63] == v.MAC[5] &&
+//@                    wire.zero(B, 2, 8) && wire.zero(B, 18, 58)
+//@   ensures same:  ok && DOM ==> len(w.IP) == 16 && w.IP[12] == v.IP[0] && w.IP[13] == v.IP[1] && w.IP[14] == v.IP[2] && w.IP[15] == v.IP[3] &&
+//@                    w.AddrPort.ip.kind == 1 && w.AddrPort.ip.bits == v.AddrPort.ip.bits && w.AddrPort.port == v.AddrPort.port &&
+//@                    len(w.MAC) == 6 && w.MAC[0] == v.MAC[0] && w.MAC[1] == v.MAC[1] && w.MAC[2] == v.MAC[2] && w.MAC[3] == v.MAC[3] && w.MAC[4] == v.MAC[4] && w.MAC[5] == v.MAC[5]
+//@   ensures noalias: ok && DOM ==> !sameblock(w.IP, b) && !sameblock(w.MAC, b) && !sameblock(w.IP, v.IP) && !sameblock(w.MAC, v.MAC)
+
+//@ func lemmaLayoutTypes
+//@   params v
+//@   returns (w, b, ok)
+//@   attr opaque = bcd.
+//@   define B = row(b)
+//@   define HOK = 0 <= v.From.hours && v.From.hours <= 24 && 0 <= v.From.minutes && v.From.minutes <= 59 && !(v.From.hours == 24 && v.From.minutes != 0) &&
+//@                0 <= v.To.hours && v.To.hours <= 24 && 0 <= v.To.minutes && v.To.minutes <= 59 && !(v.To.hours == 24 && v.To.minutes != 0)
+//@   define DOM = v.PIN < 16777216 && len(v.MAC) == 6 && HOK
+//@   requires indomain: HOK
+//@   ensures total: DOM ==> ok
+//@   ensures bytes: ok && DOM ==> len(b) == 64 && B[0] == 0x17 && B[1] == 0x4a && wire.u32(B, 4) == v.SerialNumber && wire.u24(B, 8) == v.PIN &&
+//@                    256 * B[11] + B[12] == v.Version && B[13] == v.MAC[0] && B[18] == v.MAC[5] &&
+//@                    wire.hhmm(B, 19, v.From.hours, v.From.minutes) && wire.hhmm(B, 62, v.To.hours, v.To.minutes) && wire.zero(B, 2, 4) && wire.zero(B, 21, 62)
+//@   ensures same:  ok && DOM ==> w.SerialNumber == v.SerialNumber && w.PIN == v.PIN && w.Version == v.Version && len(w.MAC) == 6 && w.MAC[0] == v.MAC[0] && w.MAC[5] == v.MAC[5] &&
+//@                    w.From.hours == v.From.hours && w.From.minutes == v.From.minutes && w.To.hours == v.To.hours && w.To.minutes == v.To.minutes
+//@   ensures noalias: ok && DOM ==> !sameblock(w.MAC, b) && !sameblock(w.MAC, v.MAC)
+
+//@ func lemmaLayoutDates
+//@   params v
+//@   returns (w, b, ok)
+//@   attr opaque = bcd., time.
+//@   attr noaxioms = time.
+//@   define B = row(b)
+//@   define YOK = ((v.Date.abs == 0 && v.Date.ns == 0) || (0 <= time.year(v.Date.abs, v.Date.loc) && time.year(v.Date.abs, v.Date.loc) <= 9999)) &&
+//@                ((v.Last.abs == 0 && v.Last.ns == 0) || (0 <= time.year(v.Last.abs, v.Last.loc) && time.year(v.Last.abs, v.Last.loc) <= 9999)) &&
+//@                0 <= time.year(v.DateTime.abs, v.DateTime.loc) && time.year(v.DateTime.abs, v.DateTime.loc) <= 9999 &&
+//@                1969 <= time.year(v.SysDate.abs, v.SysDate.loc) && time.year(v.SysDate.abs, v.SysDate.loc) <= 2068
+//@   requires indomain: YOK
+//@   ensures total: YOK ==> ok
+//@   ensures bytes: ok && YOK ==> len(b) == 64 && B[0] == 0x17 && B[1] == 0x45 && wire.date(B, 2, v.Date.abs, v.Date.ns, v.Date.loc) && wire.datetime(B, 6, v.DateTime.abs, v.DateTime.loc) &&
+//@                    wire.sysdate(B, 13, v.SysDate.abs, v.SysDate.loc) && wire.systime(B, 16, v.SysTime.abs, v.SysTime.loc) && wire.date(B, 60, v.Last.abs, v.Last.ns, v.Last.loc) && wire.zero(B, 19, 60)
+//@   ensures same:  ok && YOK ==> wire.rdate(B, 2, w.Date.abs, w.Date.ns, w.Date.loc) && wire.rdatetime(B, 6, w.DateTime.abs, w.DateTime.ns, w.DateTime.loc) &&
+//@                    (wire.rsysdateOK(B, 13) ==> wire.rsysdate(B, 13, w.SysDate.abs, w.SysDate.ns, w.SysDate.loc)) && wire.rsystime(B, 16, w.SysTime.abs, w.SysTime.ns, w.SysTime.loc) &&
+//@                    wire.rdate(B, 60, w.Last.abs, w.Last.ns, w.Last.loc)
+
+//@ func lemmaLayoutPointers
+//@   params v
+//@   returns (w, b, ok)
+//@   attr opaque = bcd., time.
+//@   attr noaxioms = time.
+//@   requires present: v.Date != nil && v.DateTime != nil && v.Time != nil
+//@   define B = row(b)
+//@   define DOM = ((v.Date.abs == 0 && v.Date.ns == 0) || (0 <= time.year(v.Date.abs, v.Date.loc) && time.year(v.Date.abs, v.Date.loc) <= 9999)) &&
+//@                0 <= time.year(v.DateTime.abs, v.DateTime.loc) && time.year(v.DateTime.abs, v.DateTime.loc) <= 9999 &&
+//@                0 <= v.Time.hours && v.Time.hours <= 24 && 0 <= v.Time.minutes && v.Time.minutes <= 59 && !(v.Time.hours == 24 && v.Time.minutes != 0)
+//@   requires indomain: DOM
+//@   ensures total: DOM ==> ok
+//@   ensures bytes: ok && DOM ==> len(b) == 64 && B[0] == 0x17 && B[1] == 0x46 && wire.date(B, 8, v.Date.abs, v.Date.ns, v.Date.loc) && wire.datetime(B, 12, v.DateTime.abs, v.DateTime.loc) &&
+//@                    wire.hhmm(B, 62, v.Time.hours, v.Time.minutes) && wire.zero(B, 2, 8) && wire.zero(B, 19, 62)
+//@   ensures same:  ok && DOM ==> w.Time != nil && w.Time.hours == v.Time.hours && w.Time.minutes == v.Time.minutes
+
+//@ func lemmaLayoutFixed
+//@   params v
+//@   returns (w, b, ok)
+//@   define B = row(b)
+//@   ensures total: ok
+//@   ensures bytes: ok ==> len(b) == 64 && B[0] == 0x17 && B[1] == 0x47 && B[8] == 0x55 && B[9] == 16 && B[10] == v.Plain && wire.zero(B, 2, 8) && wire.zero(B, 11, 64)
+//@   ensures same:  ok ==> w.Plain == v.Plain && w.Hex == 0x55 && w.Dec == 16
+
+//@ func lemmaLayoutOuter
+//@   params v
+//@   returns (w, b, ok)
+//@   define B = row(b)
+//@   ensures total: ok
+//@   ensures bytes: ok ==> len(b) == 64 && B[0] == 0x17 && B[1] == 0x48 && wire.u32(B, 8) == v.LayoutInner.A && wire.bool(B, 12, v.LayoutInner.B) && B[63] == v.C && wire.zero(B, 2, 8) && wire.zero(B, 13, 63)
+//@   ensures same:  ok ==> w.LayoutInner.A == v.LayoutInner.A && (w.LayoutInner.B <==> v.LayoutInner.B) && w.C == v.C
+
+//@ func lemmaDecodeFixed
+//@   params b
+//@   returns (m, err)
+//@   ensures enforced: err == nil ==> len(b) == 64 && b[0] == 0x17 && b[1] == 0x47 && b[8] == 0x55 && b[9] == 16
+
+//@ func lemmaDecodeOuter
+//@   params b
+//@   returns (m, err)
+//@   ensures enforced: err == nil ==> len(b) == 64 && b[0] == 0x17 && b[1] == 0x48 && b[12] <= 1
+
+//@ func lemmaDecodeAddrs
+//@   params b
+//@   returns (m, err)
+//@   ensures enforced: err == nil ==> len(b) == 64 && b[0] == 0x17 && b[1] == 0x43
+//@   ensures noalias:  err == nil ==> !sameblock(m.IP, b) && len(m.MAC) == 6 && !sameblock(m.MAC, b)
